@@ -1,8 +1,13 @@
 (* Properties_C04.v — C04: numbers load exactly or are reported per policy, never silently altered.
    Statements only.  NumSpec.v: types, ranges, conv_spec.  NumModel.v: conv (the cast-and-compare-back
    of Convert::Detail::To with explicit two's-complement wrap), convert_by_policy, load_int.
-   The floating-point half is in Properties_C04 below the integer theorems (see NumFloat*.v). *)
-From BS Require Import Base NumSpec NumModel NumLemmas NumProofs.
+   The floating-point half (NumFloatModel.v / NumFloatProofs.v, over Flocq's IEEE754.Binary) follows the
+   integer theorems; those theorems depend on the standard-library real-number axioms
+   (ClassicalDedekindReals.sig_forall_dec, sig_not_dec, FunctionalExtensionality.functional_extensionality_dep,
+   Classical_Prop.classic), the integer ones are closed under the global context. *)
+From Coq Require Import ZArith Reals.
+From Flocq Require Import Core Binary Bits.
+From BS Require Import Base NumSpec NumModel NumLemmas NumProofs NumFloatModel NumFloatProofs.
 Local Open Scope Z_scope.
 
 (* every (source type, target type) pair among bool, char, (u)int8/16/32/64 and every source value:
@@ -87,3 +92,108 @@ Print Assumptions T_C04_example_sign_test_needed.
 Example T_C04_example_skip : load_int TI64 TI8 (-129) 5 PThrow PSkip = NotLoaded 5.
 Proof. exact load_example_skip. Qed.
 Print Assumptions T_C04_example_skip.
+
+(* ================= floating-point half (Flocq) =================
+   Model: static_cast<float/double>(integer) = round to nearest even, static_cast<integer>(float) =
+   truncation, UNDEFINED outside the type ([conv.fpint]), double -> float = round to nearest even inside
+   [lowest, max], float -> double exact. *)
+
+(* integer -> float / double: whatever the conversion returns is EXACTLY the source value
+   (the code accepts no rounding at all: stricter than C04 needs, never weaker) *)
+Theorem T_C04_int_to_f32_exact : forall S z v, in_range S z -> conv_int_f32 S z = COk v ->
+  Binary.B2R 24 128 v = IZR z /\ Binary.is_finite 24 128 v = true.
+Proof. exact int_to_f32_exact. Qed.
+Print Assumptions T_C04_int_to_f32_exact.
+
+Theorem T_C04_int_to_f64_exact : forall S z v, in_range S z -> conv_int_f64 S z = COk v ->
+  Binary.B2R 53 1024 v = IZR z /\ Binary.is_finite 53 1024 v = true.
+Proof. exact int_to_f64_exact. Qed.
+Print Assumptions T_C04_int_to_f64_exact.
+
+(* every exactly representable integer is accepted (no refusal, no undefined behaviour) *)
+Theorem T_C04_int_to_f32_complete : forall S z, in_range S z ->
+  generic_format radix2 (SpecFloat.fexp 24 128) (IZR z) ->
+  conv_int_f32 S z = COk (of_int32 z).
+Proof. exact int_to_f32_complete. Qed.
+Print Assumptions T_C04_int_to_f32_complete.
+
+Theorem T_C04_int_to_f64_complete : forall S z, in_range S z ->
+  generic_format radix2 (SpecFloat.fexp 53 1024) (IZR z) ->
+  conv_int_f64 S z = COk (of_int64 z).
+Proof. exact int_to_f64_complete. Qed.
+Print Assumptions T_C04_int_to_f64_complete.
+
+(* FULL STRENGTH: an integer that is not exactly representable is reported as out_of_range.
+   Refuted: next to the top of a 32/64-bit type the rounded value is 2^31 / 2^32 / 2^63 / 2^64 and the
+   compare-back static_cast<TSource>(value) is undefined behaviour ([conv.fpint]) *)
+Theorem T_C04_int_to_fp_reject_refuted :
+  (in_range TU64 (2 ^ 64 - 1) /\ conv_int_f32 TU64 (2 ^ 64 - 1) = CUB /\ ub_class32 TU64 (2 ^ 64 - 1) = true) /\
+  (in_range TI64 (2 ^ 63 - 1) /\ conv_int_f64 TI64 (2 ^ 63 - 1) = CUB /\ ub_class64 TI64 (2 ^ 63 - 1) = true).
+Proof. exact (conj ub_witness_f32 ub_witness_f64). Qed.
+Print Assumptions T_C04_int_to_fp_reject_refuted.
+
+(* ... it holds outside the class "the rounded value, truncated, is outside the source type" *)
+Theorem T_C04_int_to_f32_reject_outside : forall S z, in_range S z -> ub_class32 S z = false ->
+  ~ generic_format radix2 (SpecFloat.fexp 24 128) (IZR z) -> conv_int_f32 S z = COutOfRange.
+Proof. exact int_to_f32_reject_outside. Qed.
+Print Assumptions T_C04_int_to_f32_reject_outside.
+
+Theorem T_C04_int_to_f64_reject_outside : forall S z, in_range S z -> ub_class64 S z = false ->
+  ~ generic_format radix2 (SpecFloat.fexp 53 1024) (IZR z) -> conv_int_f64 S z = COutOfRange.
+Proof. exact int_to_f64_reject_outside. Qed.
+Print Assumptions T_C04_int_to_f64_reject_outside.
+
+(* ... the class is exactly where the model reports UB, and it is empty for 8/16-bit sources into
+   float and for sources up to 32 bits into double *)
+Theorem T_C04_int_to_f32_ub_iff : forall S z, in_range S z -> (conv_int_f32 S z = CUB <-> ub_class32 S z = true).
+Proof. exact int_to_f32_ub_iff. Qed.
+Print Assumptions T_C04_int_to_f32_ub_iff.
+
+Theorem T_C04_int_to_f64_ub_iff : forall S z, in_range S z -> (conv_int_f64 S z = CUB <-> ub_class64 S z = true).
+Proof. exact int_to_f64_ub_iff. Qed.
+Print Assumptions T_C04_int_to_f64_ub_iff.
+
+Theorem T_C04_int_to_f32_no_ub_small : forall S z, bits_of S <= 16 -> in_range S z -> ub_class32 S z = false.
+Proof. exact no_ub_small_f32. Qed.
+Print Assumptions T_C04_int_to_f32_no_ub_small.
+
+Theorem T_C04_int_to_f64_no_ub_le32 : forall S z, bits_of S <= 32 -> in_range S z -> ub_class64 S z = false.
+Proof. exact no_ub_le32_f64. Qed.
+Print Assumptions T_C04_int_to_f64_no_ub_le32.
+
+(* double -> float: accepted exactly when finite and inside [lowest, max] of float; the result is
+   the nearest float (ties to even); everything else — larger magnitudes, infinities, NaN — is
+   out_of_range; never undefined, never another number *)
+Theorem T_C04_f64_to_f32_accept : forall x y, conv_f64_f32 x = COk y ->
+  in_float_range x /\
+  Binary.B2R 24 128 y = round radix2 (SpecFloat.fexp 24 128) ZnearestE (Binary.B2R 53 1024 x) /\
+  Binary.is_finite 24 128 y = true.
+Proof. exact f64_to_f32_accept. Qed.
+Print Assumptions T_C04_f64_to_f32_accept.
+
+Theorem T_C04_f64_to_f32_total : forall x,
+  (exists y, conv_f64_f32 x = COk y /\ in_float_range x) \/ (conv_f64_f32 x = COutOfRange /\ ~ in_float_range x).
+Proof. exact f64_to_f32_total. Qed.
+Print Assumptions T_C04_f64_to_f32_total.
+
+(* float -> double: always accepted, exact on finite values, infinities and NaN stay what they are *)
+Theorem T_C04_f32_to_f64 : forall x, exists y, conv_f32_f64 x = COk y /\
+  (Binary.is_finite 24 128 x = true -> Binary.B2R 53 1024 y = Binary.B2R 24 128 x /\ Binary.is_finite 53 1024 y = true) /\
+  (Binary.is_nan 24 128 x = true -> Binary.is_nan 53 1024 y = true) /\
+  (forall s, x = Binary.B754_infinity 24 128 s -> y = Binary.B754_infinity 53 1024 s).
+Proof. exact f32_to_f64. Qed.
+Print Assumptions T_C04_f32_to_f64.
+
+(* floating source, integer / bool target: invalid_argument by construction *)
+Theorem T_C04_fp_to_int : forall (x : binary64) T, conv_fp_int x T = CInvalidArgument.
+Proof. reflexivity. Qed.
+Print Assumptions T_C04_fp_to_int.
+
+Example T_C04_example_flt_limits :
+  bits_of_b64 (widen flt_max) = 0x47efffffe0000000 /\ bits_of_b64 (widen flt_lowest) = 0xc7efffffe0000000.
+Proof. exact flt_max_bits. Qed.
+Print Assumptions T_C04_example_flt_limits.
+
+Example T_C04_example_ub_i32 : in_range TI32 (2 ^ 31 - 1) /\ conv_int_f32 TI32 (2 ^ 31 - 1) = CUB.
+Proof. exact ub_witness_i32_f32. Qed.
+Print Assumptions T_C04_example_ub_i32.
